@@ -76,13 +76,17 @@ def compat_key(kind, args):
     return ("hh", args[0], args[1], args[2])
 
 
-def fill(sk, kind, i):
+def fill(sk, kind, i, cancelled=False):
     if hasattr(sk, "rand_nums"):
         SK.install_draws(sk, [])
     for j, k in enumerate((b"a", b"bb", b"\x00", b"key-%d" % i)):
         sk.add(k, 1 + j)
     if kind != "hll":
         sk.n_added_records[1] = 2 + i
+    if cancelled and kind == "hh":
+        # every Boyer-Moore counter cancelled back to 0 (as after equally frequent keys sharing
+        # each cell): the sketch is NOT empty - n_added() > 0 - but stores no count
+        sk.lhh_count[...] = 0
 
 
 def run(rep):
@@ -93,10 +97,11 @@ def run(rep):
             if rep.tier == "quick" and shared_a != shared_b:
                 continue
             for (i, (ka, aa)), (j, (kb, ab)) in itertools.product(enumerate(cfgs), repeat=2):
+              for cancelled in ((False, True) if fam == "heavy-hitters" and not shared_a else (False,)):
                 a = SK.make(ka, *aa, shared_memory=shared_a)
                 b = SK.make(kb, *ab, shared_memory=shared_b)
                 fill(a, ka, i)
-                fill(b, kb, j)
+                fill(b, kb, j, cancelled)
                 ca, cb = capture(a, SKIP), capture(b, SKIP)
                 compatible = compat_key(ka, aa) == compat_key(kb, ab)
                 exc = None
@@ -106,7 +111,7 @@ def run(rep):
                     exc = e
                 pairs += 1
                 rep.evals()
-                case = {"a": [ka, aa, shared_a], "b": [kb, ab, shared_b]}
+                case = {"a": [ka, aa, shared_a], "b": [kb, ab, shared_b], "cancelled": cancelled}
                 if compatible:
                     if exc is not None:
                         rep.violation(case, f"compatible {ka}{aa}.merge({kb}{ab}) raised "
@@ -148,7 +153,7 @@ def replay(case):
     a = SK.make(ka, *aa, shared_memory=sa)
     b = SK.make(kb, *ab, shared_memory=sb)
     fill(a, ka, 0)
-    fill(b, kb, 1)
+    fill(b, kb, 1, bool(case.get("cancelled")))
     ca, cb = capture(a, SKIP), capture(b, SKIP)
     compatible = compat_key(ka, aa) == compat_key(kb, ab)
     exc = None
